@@ -20,6 +20,8 @@ func init() {
 			ruleR0(c, r, "", c.Func("lzma", "Reader.Read"), nil)
 			ruleNoProgress(c, r, "")
 			ruleMultiStream(c, r, "")
+			ruleXZReaderChecks(c, r, "")
+			ruleRawEOFFlag(c, r, "")
 			ruleCounting(c, r, "", "read")
 			ruleDecoderReadErr(c, r, "")
 			ruleReadInvokes(c, r, "")
